@@ -5,6 +5,7 @@
   not a violation.
 -/
 import Gozod.Proofs.C06
+import Gozod.Proofs.C06G
 namespace Gozod.C06W
 open Gozod.Tags Gozod.Gen Gozod.C06
 
@@ -64,5 +65,22 @@ theorem c06_order_independent_full_false : ¬ c06_order_independent_full := by
   have key : ∃ b ∈ tagTable, ∃ p ∈ b.pairs, p.2.2.1 ≠ p.2.2.2 := by decide +kernel
   obtain ⟨b, hb, p, hp, hne⟩ := key
   exact hne (h b hb p hp)
+
+
+/-! ### type graphs -/
+open Gozod.Tags.Graph in
+/-- the table of type graphs holds a root that does not build, a probe under a recursive edge that is
+    accepted although invalid, and a nil slice that is rejected although not `required` -/
+theorem c06_graph_table_witnesses :
+    (graphTable.any fun r => !r.built) = true ∧
+    (graphTable.any fun r => !rankedB r.env && r.probes.any fun p => p.2 == .acc && !Spec.vStruct r.env 0 p.1) = true ∧
+    (graphTable.any fun r => rankedB r.env && r.probes.any fun p => p.2 == .rej && Spec.vStruct r.env 0 p.1) = true := by
+  decide +kernel
+
+theorem c06_graph_table_full_false : ¬ c06_graph_table_full := by
+  intro h
+  have hb : graphTable.all (fun r => r.built) = true := List.all_eq_true.mpr fun r hr => (h r hr).1
+  revert hb
+  decide +kernel
 
 end Gozod.C06W
